@@ -475,8 +475,59 @@ def r3_reserved_parts_cover_generated_names(ctx, rid):
     ctx.require(n_ops >= 1, f"{rid}: no generated operator (`add_op(..., inputs=, equations=, variables=)`) found in {IR}")
 
 
+
+# characters that may directly neighbour an identifier in an equation of the documented grammar (C05: binary/unary operators,
+# `^` and `**`, parentheses, call/argument separators, comparison, indexing helpers, spacing)
+REQUIRED_BOUNDARY_CHARS = set("+-*/^()=<>, ")
+
+
+def r4_boundary_vocabulary(ctx, rid):
+    """parser.replace substitutes an identifier only when both neighbours are in its boundary-character set.  Every operator
+    character of the equation grammar must be in that set, otherwise the substitution silently depends on how the equation is
+    written (`s^2` vs `s**2` vs `s ^ 2`).  Also: the sibling scanner var_in_expression must use the same set."""
+    import ast as _ast
+    from engine import AnalysisError as _AE
+    from engine.srcmodel import walk_shallow as _ws
+    sets = {}
+    for q in ("replace", "var_in_expression"):
+        f = ctx.repo.find_func("pyrates/backend/parser.py", q)
+        if f is None:
+            if q == "replace":
+                raise _AE(f"{rid}: parser.replace vanished")
+            continue
+        consts = [st for st in _ws(f.node) if isinstance(st, _ast.Assign) and isinstance(st.value, _ast.Constant) and isinstance(st.value.value, str)
+                  and len(st.value.value) >= 8 and any(isinstance(t, _ast.Name) and "ops" in t.id for t in st.targets)]
+        if len(consts) != 1:
+            raise _AE(f"{rid}: boundary-character set of parser.{q} not recognised")
+        # the set must actually be what the boundary test reads
+        name = consts[0].targets[0].id
+        used = [c for c in _ast.walk(f.node) if isinstance(c, _ast.Compare) and isinstance(c.ops[0], _ast.In)
+                and isinstance(c.comparators[0], _ast.Name) and c.comparators[0].id == name]
+        if not used:
+            raise _AE(f"{rid}: `{name}` is not used by a membership test in parser.{q}")
+        sets[q] = (f, consts[0], set(consts[0].value.value))
+    f, st, chars = sets["replace"]
+    missing = sorted(REQUIRED_BOUNDARY_CHARS - chars)
+    facts = {"boundary_set": "".join(sorted(chars)), "required": "".join(sorted(REQUIRED_BOUNDARY_CHARS))}
+    if missing:
+        ctx.violation(rid, f, st, f"the boundary set of parser.replace lacks {missing}: an identifier written directly next to "
+                                  f"{' or '.join(repr(m) for m in missing)} is not substituted (summed operator inputs, template `replace` edits), "
+                                  f"so the value of an equation depends on its spelling", facts, label="boundary characters cover the operator vocabulary")
+    else:
+        ctx.ok(rid, f, st, "every operator character of the equation grammar is a token boundary for substitution", facts,
+               label="boundary characters cover the operator vocabulary")
+    if "var_in_expression" in sets:
+        g, st2, chars2 = sets["var_in_expression"]
+        if chars2 == chars:
+            ctx.ok(rid, g, st2, "the sibling scanner uses the same boundary set", label="sibling boundary sets agree")
+        else:
+            ctx.violation(rid, f, st, f"parser.replace and parser.var_in_expression disagree on token boundaries "
+                                      f"(only in one: {sorted(chars ^ chars2)})", facts, label="sibling boundary sets agree")
+
+
 RULES = [
     ("C05-R1", r4_fresh_name_generator, 6),
     ("C05-R2", r2_generated_names_never_overwrite, 3),
     ("C05-R3", r3_reserved_parts_cover_generated_names, 18),
+    ("C05-R4", r4_boundary_vocabulary, 1),
 ]
